@@ -91,11 +91,11 @@ theorem library_cdb_conformant (module cls : String) (s : Cdb) (d : CmdDesc)
     (args env : Env) (c : Command) (hb : build d op args = .ok c)
     (henv : bindArgs args d.params = .ok env) (hr : ArgsInRange s op env c.dataout)
     (L kl ot kt : Nat) (hLs : samLen s.opcode = some L) (hshape : rwShape L = some (kl, ot, kt))
-    (n1 n2 : String)
+    (n1 n2 a2 : String)
     (hopF : (⟨"OPERATION CODE", 0, 7, 8 * 1, .opcode⟩ : Field) ∈ s.fields)
     (hlbaF : (⟨n1, 2, 7, 8 * kl, .arg "lba"⟩ : Field) ∈ s.fields)
-    (htlF : (⟨n2, ot, 7, 8 * kt, .arg "tl"⟩ : Field) ∈ s.fields)
-    (lba tl : Nat) (hlba : srcVal op env c.dataout (.arg "lba") = some lba) (htl : srcVal op env c.dataout (.arg "tl") = some tl) :
+    (htlF : (⟨n2, ot, 7, 8 * kt, .arg a2⟩ : Field) ∈ s.fields)
+    (lba tl : Nat) (hlba : srcVal op env c.dataout (.arg "lba") = some lba) (htl : srcVal op env c.dataout (.arg a2) = some tl) :
     Conformant c.cdb s.opcode lba tl := by
   obtain ⟨L', hL', hval, hlen, hf, _, _⟩ :=
     cdb_meets_standard module cls s d hs hd hcmd hsets setName set hset op hop args env c hb henv hr
@@ -124,7 +124,7 @@ theorem library_cdb_conformant (module cls : String) (s : Cdb) (d : CmdDesc)
       simp only [hi, beq_iff_eq] at hlen'
       subst hlen'
       exact compatible_bytesOK d s L2 hcmd' op hi args c hb env henv hr
-  exact conformant_of_fields c.cdb hbytes L' kl ot kt hlen hshape s.opcode lba tl "OPERATION CODE" n1 n2 .opcode (.arg "lba") (.arg "tl")
+  exact conformant_of_fields c.cdb hbytes L' kl ot kt hlen hshape s.opcode lba tl "OPERATION CODE" n1 n2 .opcode (.arg "lba") (.arg a2)
     (by rw [hf _ hopF op.value rfl, hval]) (hf _ hlbaF lba hlba) (hf _ htlF tl htl)
 
 /-! ## the six commands -/
@@ -184,7 +184,7 @@ theorem rw_cdb_conformant (mc : String × String) (hmc : mc ∈ rwCommands) (s :
       obtain ⟨⟨⟨g0, hg0, e0⟩, ⟨g1, hg1, e1⟩⟩, ⟨g2, hg2, e2⟩⟩ := hf
       subst e0; subst e1; subst e2
       exact library_cdb_conformant mc.1 mc.2 s d hs hd hcmd hsets setName set hset op hop args env c hb henv hr
-        L kl ot kt hL hsh "LOGICAL BLOCK ADDRESS" "TRANSFER LENGTH" hg0 hg1 hg2 lba tl hlba htl
+        L kl ot kt hL hsh "LOGICAL BLOCK ADDRESS" "TRANSFER LENGTH" "tl" hg0 hg1 hg2 lba tl hlba htl
 
 /-- **end to end, write**: a WRITE the library builds for (lba, tl) with `tl × block size` bytes of data, executed by
     the conformant target, leaves exactly that data on the abstract disk at blocks lba … lba+tl−1 -/
@@ -228,5 +228,80 @@ example :
           (step t1 cr.cdb [] 4).2.datain == [1, 2, 3, 4]
         | _, _ => false)
      | _, _, _, _ => false) = true := by decide +kernel
+
+/-! ## WRITE SAME(10/16) -/
+
+def wsCommands : List (String × String) := [("scsi_cdb_writesame10", "WriteSame10"), ("scsi_cdb_writesame16", "WriteSame16")]
+
+def wsFieldsOK (mc : String × String) : Bool :=
+  match stdOf mc.1 mc.2 with
+  | none => false
+  | some s =>
+    (s.opcode == 0x41 || s.opcode == 0x93) &&
+    match samLen s.opcode with
+    | none => false
+    | some L =>
+      match rwShape L with
+      | none => false
+      | some (kl, ot, kt) =>
+        s.fields.any (fun g => g == ⟨"OPERATION CODE", 0, 7, 8 * 1, .opcode⟩) &&
+        s.fields.any (fun g => g == ⟨"LOGICAL BLOCK ADDRESS", 2, 7, 8 * kl, .arg "lba"⟩) &&
+        s.fields.any (fun g => g == ⟨"NUMBER OF LOGICAL BLOCKS", ot, 7, 8 * kt, .arg "nb"⟩)
+
+theorem ws_fields_ok : wsCommands.all wsFieldsOK = true := by decide +kernel
+
+theorem ws_obligations : wsCommands.all (fun mc => cmdOK mc.1 mc.2 && setsOK mc.1 mc.2) = true := by
+  decide +kernel
+
+/-- **WRITE SAME(10/16) built by the library are decoded by the conformant target as the operation, the LBA and the
+    NUMBER OF LOGICAL BLOCKS the caller supplied** — every command set that offers them, all in-range arguments -/
+theorem ws_cdb_conformant (mc : String × String) (hmc : mc ∈ wsCommands) (s : Cdb) (d : CmdDesc)
+    (hs : stdOf mc.1 mc.2 = some s) (hd : genOf mc.1 mc.2 = some d)
+    (setName : String) (set : List (String × OpCode)) (hset : (setName, set) ∈ Gen.sets)
+    (op : OpCode) (hop : findOp set s.opName = some op)
+    (args env : Env) (c : Command) (hb : build d op args = .ok c)
+    (henv : bindArgs args d.params = .ok env) (hr : ArgsInRange s op env c.dataout)
+    (lba nb : Nat) (hlba : srcVal op env c.dataout (.arg "lba") = some lba) (hnb : srcVal op env c.dataout (.arg "nb") = some nb) :
+    Conformant c.cdb s.opcode lba nb ∧ (s.opcode = 0x41 ∨ s.opcode = 0x93) := by
+  have hob := ws_obligations
+  simp only [List.all_eq_true, Bool.and_eq_true] at hob
+  obtain ⟨hcmd, hsets⟩ := hob mc hmc
+  have hfo := ws_fields_ok
+  simp only [List.all_eq_true] at hfo
+  have hf := hfo mc hmc
+  unfold wsFieldsOK at hf
+  rw [hs] at hf
+  simp only [Bool.and_eq_true, Bool.or_eq_true, beq_iff_eq] at hf
+  obtain ⟨hopc, hf⟩ := hf
+  refine ⟨?_, hopc⟩
+  cases hL : samLen s.opcode with
+  | none => simp [hL] at hf
+  | some L =>
+    simp only [hL] at hf
+    cases hsh : rwShape L with
+    | none => simp [hsh] at hf
+    | some sh =>
+      obtain ⟨kl, ot, kt⟩ := sh
+      simp only [hsh, Bool.and_eq_true, List.any_eq_true, beq_iff_eq] at hf
+      obtain ⟨⟨⟨g0, hg0, e0⟩, ⟨g1, hg1, e1⟩⟩, ⟨g2, hg2, e2⟩⟩ := hf
+      subst e0; subst e1; subst e2
+      exact library_cdb_conformant mc.1 mc.2 s d hs hd hcmd hsets setName set hset op hop args env c hb henv hr
+        L kl ot kt hL hsh "LOGICAL BLOCK ADDRESS" "NUMBER OF LOGICAL BLOCKS" "nb" hg0 hg1 hg2 lba nb hlba hnb
+
+/-- **end to end, WRITE SAME**: a WRITE SAME the library builds for (lba, nb) with one block of data (NDOB clear), executed
+    by the conformant target, is the abstract `writeSame` operation — `nb` blocks from `lba`, or, for `nb = 0`, every
+    block from `lba` to the end of the medium -/
+theorem library_write_same_reaches_disk (mc : String × String) (hmc : mc ∈ wsCommands) (s : Cdb) (d : CmdDesc)
+    (hs : stdOf mc.1 mc.2 = some s) (hd : genOf mc.1 mc.2 = some d)
+    (setName : String) (set : List (String × OpCode)) (hset : (setName, set) ∈ Gen.sets)
+    (op : OpCode) (hop : findOp set s.opName = some op)
+    (args env : Env) (c : Command) (hb : build d op args = .ok c)
+    (henv : bindArgs args d.params = .ok env) (hr : ArgsInRange s op env c.dataout)
+    (lba nb : Nat) (hlba : srcVal op env c.dataout (.arg "lba") = some lba) (hnb : srcVal op env c.dataout (.arg "nb") = some nb)
+    (hndob : ¬ (s.opcode = 0x93 ∧ (be c.cdb 1 1) % 2 = 1))
+    (t : T) (hcap : lba + nb ≤ t.capacity) (blk : Conv.Bytes) (hbl : blk.length = t.blockSize) :
+    (step t c.cdb blk 0).2.status = .good ∧ (step t c.cdb blk 0).1 = targetStep t (.writeSame lba nb blk) := by
+  obtain ⟨hc, hopc⟩ := ws_cdb_conformant mc hmc s d hs hd setName set hset op hop args env c hb henv hr lba nb hlba hnb
+  exact write_same_updates_disk t c.cdb s.opcode lba nb hc hopc hndob hcap blk hbl
 
 end C12
